@@ -35,6 +35,20 @@ inline void register_symbols(const Alphabet& alpha, const std::vector<int>& syms
 	for (int s : syms) sym_to_lib(alpha, s);
 }
 
+// a fresh private on-the-fly alphabet whose symbol numbers differ from those of the process-wide default alphabet:
+// two symbols nobody uses come first, then the given symbols in a permuted order
+inline Alphabet private_alphabet(const std::vector<int>& syms, uint32_t seed)
+{
+	Alphabet alpha(new ExplicitTreeAut::OnTheFlyAlphabet);
+	auto tr = alpha->GetSymbolTransl();
+	(*tr)(ExplicitTreeAut::StringRank("zz_unused", 1));
+	(*tr)(ExplicitTreeAut::StringRank("zz_unused", 0));
+	std::vector<int> v(syms);
+	for (size_t i = v.size(); i > 1; --i) std::swap(v[i - 1], v[gen::mix(seed, i + 99) % i]);
+	for (int sy : v) sym_to_lib(alpha, sy);
+	return alpha;
+}
+
 // build through the mutating API, rules in the given order
 inline void fill(ExplicitTreeAut& aut, const ref::TA& A, const std::vector<ref::Rule>& order,
 	const gen::Numbering& num)
